@@ -2,6 +2,31 @@
 SOURCE_COMMITS = []
 NOT_APPLICABLE = {}
 CHECKS = {
+ "C12": {
+  "text": "GitCheckout.tla (upstream DAG of 4 commits / 2 branches / movable tag in two repositories, recipe git spec url x branch|tag|"
+          "commit x dir, optional nested url/import SCM, work repository with HEAD/local branches/remote-tracking refs/dirty/untracked/"
+          "unpushed commits, Bob dirState/attic; bob dev, dev --clean-checkout, clean -s, clean --attic with git's own refusal rules) "
+          "is model-checked exhaustively within <=5 (thorough <=6) actions for NoUserWorkLost, Converges, NoSpuriousRefusal; TLC "
+          "counterexamples of nine single weakenings and TLC-simulated histories are replayed with real git and real bob runs; "
+          "oracles = presence of every user token/commit in workspace or attic, and equality with a real fresh bob dev plus plain "
+          "git clone. Bounded model checking plus conformance on generated histories, not a proof of the code.",
+  "design_ref": "DESIGN.md section 4, C12",
+  "note": "git 2.39 behaviour as modelled (drift 0 on replayed histories); tags immutable, branch tracking fast-forward only (documented exemptions); dangling-only commits count as lost; action coverage from simulated histories (TLC -coverage OOM); svn/cvs/submodules/stash/tarballs not covered",
+  "technique": "TLA+ spec + TLC exhaustive check; counterexample-directed and simulated histories replayed into real git/bob; oracles user-work presence and fresh-checkout equality",
+ },
+ "C15": {
+  "text": "SharedStore.tla (install/use/gc of 2-3 projects split at every lock and file-system operation, quota policy, workspace "
+          "links) is model-checked exhaustively: the repaired protocol satisfies all of P, the protocol of the code satisfies P "
+          "minus the sub-invariants that state its confirmed remaining weakness (link after unlock). Shortest counterexamples per "
+          "weakness, TLC-simulated behaviours, bounded-preemption schedules and random schedules are replayed lock-operation by "
+          "lock-operation on real LocalShare objects plus the real LocalBuilder._useSharedPackage/_installSharedPackage under the "
+          "deterministic scheduler, with the P oracle evaluated on the real store after every operation; thorough adds real "
+          "multi-process stress. Bounded model checking plus conformance, not a proof.",
+  "design_ref": "DESIGN.md section 4, C15",
+  "note": "vf.sched/vf.fsint interposition of os/open/fcntl/shutil names in bob.share and bob.builder; in-memory BobState stand-in; atomic rename, flock and symlink; no crashes of share operations; build-id determines content; virtual mtime clock",
+  "technique": "explicit-state model checking with per-operation actions and Weak-set variants; counterexample-guided confirmation on the code; schedule replay under a deterministic scheduler; systematic two-preemption and seeded random scheduling; multi-process stress (thorough)",
+ },
+
  "C19": {
   "text": "ArchiveRetention.tla (index tables and LIMIT queue of `bob archive` transcribed; the documented retention semantics as step "
           "properties over the archive only) is model-checked exhaustively over all upload/external-removal/scan/clean/find histories "
